@@ -38,7 +38,7 @@ POOLS = {
     'dimension': (['', 'about ', '~'], ['7 km', '12.5kg', '3 miles', '6 ft 2 in', '5 fluid ounces', '2 mb']),
     'number': (['', '-', 'minus ', '$', '#'], ['12', '1,234.5', 'twenty one', '3/4', '1e5', 'one hundred and five', '５５']),
     'datetime': (['', 'tomorrow morning at ', 'from ', 'between 10 and ', 'on ', 'before ', 'monday '],
-                 ['7, this afternoon', '11:30 on 1/1/2015', 'may 5 or later', '3pm to 5pm', 'next friday', 'the 3rd of May 2019 at 8', '2014 through 2018', '5/6/2020 5/7/2020', '8 pm tonight']),
+                 ['7, this afternoon', '11:30 on 1/1/2015', 'may 5 or later', '3pm to 5pm', 'next friday', 'the 3rd of May 2019 at 8', '2014 through 2018', '5/6/2020 5/7/2020', '8 pm tonight', '1/1/2016 and after', '138-2010-2015']),
     'percentage': (['', '-', 'about '], ['12%', '12 percent', '12.5 %', 'twelve percent', '100％']),
 }
 
@@ -257,9 +257,6 @@ def h_compose(a: int, b: int, c: int, d: int):
         rs = _recognize(KIND, q)
     if F37:
         return                       # region of known finding F37 (the modifier widening of the Chinese merged extractor touched a result)
-    if KIND == 'datetime':
-        # recorded finding F2, identified by its input: an empty entity for "... in 2014 through 2018"; F3a overlaps are identified by the add_to monitor
-        rs = [r for r in rs if not (r.text == '' and '2014 through 2018' in q)]
     span_contract(q, rs)
     disjoint(q, rs)
 
